@@ -233,19 +233,17 @@ def programs(max_steps, depth, inner_steps):
     def steps(d):
         out = list(ACTIONS)
         if d > 0:
-            for sub in bodies(inner_steps, d - 1):
+            for sub in list(bodies(inner_steps, d - 1)):
                 for ex in ("normal", "raise", "return"):
                     out.append(("with", sub, ex))
                 out.append(("withcatch", sub, "raise"))
         return out
 
     def bodies(n, d):
-        res = [()]
+        yield ()
         alphabet = steps(d)
         for k in range(1, n + 1):
-            for combo in itertools.product(alphabet, repeat=k):
-                res.append(combo)
-        return res
+            yield from itertools.product(alphabet, repeat=k)
 
     return bodies(max_steps, depth)
 
@@ -356,8 +354,7 @@ def bounds(tier):
     th = tier == "thorough"
     return {"documents": len(DOCS) if th else 3, "configs": CFGS, "exception_classes": [e.__name__ for e in EXC],
             "when": ["before", "after"], "fault_pairs": "all ordered pairs on 2 documents (js-default)" if th else "none (sequences by instance reuse)",
-            "reset_rules": {"actions": ACTIONS, "exits": EXITS, "max_steps": 3 if th else 2, "nesting": 3 if th else 2,
-                            "inner_steps": 2 if th else 1, "presets": ["commonmark", "js-default"]}}
+            "reset_rules": {"actions": ACTIONS, "exits": EXITS, "max_steps": 3 if th else 2, "nesting": 3 if th else 2, "inner_steps": 1, "presets": ["commonmark", "js-default"]}}
 
 
 def shards(tier):
@@ -375,7 +372,7 @@ def shards(tier):
     for preset in ("commonmark", "js-default"):
         for ex in EXITS:
             for part in range(4):
-                sh.append(("reset", preset, ex, 3 if th else 2, 3 if th else 2, 2 if th else 1, part, 4))
+                sh.append(("reset", preset, ex, 3 if th else 2, 3 if th else 2, 1, part, 4))
     return sh
 
 
